@@ -763,3 +763,30 @@ fn analyze_builtin(
 		Builtin::IncludeBytes => todo!(),
 	}
 }
+
+/// Verification hooks: the pass on one expression or statement, with the
+/// "immediate function argument" flag given and reported.
+#[cfg(feature = "verif")]
+pub mod verif_hooks
+{
+	use super::*;
+
+	pub fn analyze_expression(
+		is_immediate_function_argument: bool,
+		expression: Expression,
+	) -> (Expression, bool)
+	{
+		let mut analyzer = Analyzer::default();
+		analyzer.is_immediate_function_argument = is_immediate_function_argument;
+		let expression = expression.analyze(&mut analyzer);
+		(expression, analyzer.is_immediate_function_argument)
+	}
+
+	pub fn analyze_statement(statement: Statement) -> (Statement, bool)
+	{
+		let mut analyzer = Analyzer::default();
+		analyzer.is_immediate_function_argument = true;
+		let statement = statement.analyze(&mut analyzer);
+		(statement, analyzer.is_immediate_function_argument)
+	}
+}
